@@ -41,7 +41,7 @@ class SimBackend : public mp::FlatBackend<mp::MIPBackend<SimBackend>>, public Si
 
   void InitCustomOptions() override;
   void InitOptionParsing() override { Call("InitOptionParsing"); }
-  void FinishOptionParsing() override { Call("FinishOptionParsing"); }
+  void FinishOptionParsing() override;
 
   USING_STD_FEATURES;
   ALLOW_STD_FEATURE(MULTIOBJ, true)
@@ -144,6 +144,8 @@ std::unique_ptr<mp::BasicBackend> CreateSimBackend();
 std::unique_ptr<mp::BasicBackend> CreateMiniBackend();
 // the scripted callback registrations (script.registrations) due at solve iteration at_iter (-1: when the interrupter is handed over)
 void do_registrations(mp::Interrupter* inter, int at_iter);
+// "session" registration pattern: the solver session (handle) in use; a driver may open a new one while options are parsed
+extern int g_session;
 
 // C15 callbacks (registered through the real SetHandler path)
 bool cbA(void* data);
